@@ -16,7 +16,12 @@ Tie, for every generated GIR compiled with /repo's real g-ir-compiler:
      the API of the source GIR (girwriter.c is NOT modelled: validated, not proved).
 
 Normalisation used by (3)/(4) — what the typelib format does not store or the GIR dialect of
-g-ir-generate spells differently — is documented at `api_from_gir` and in ctx.assumptions.
+g-ir-generate spells differently — is documented at class `Api` and in ctx.assumptions.
+
+PENDING_FINDINGS: defects of /repo HEAD in gibaseinfo.c / gistructinfo.h / girwriter.c, each with an exact
+key computed by `classify` from the datum that is wrong and its wrong value; corpus/C09/hand_picked.json
+holds one minimal GIR per finding, and `repaired-compiler-constructs` / `hidden-and-shadowed` hold what
+the fix: commits repaired (must pass without suppression).
 """
 import json
 import os
@@ -796,13 +801,16 @@ class Api(object):
         self.ns = self.nsel.get('name')
         self.lines = []
         self.kinds = {}
-        self.bad_bytearray = any(
-            a.get('name') == 'GLib.ByteArray' and not ([c.get('name') for c in a if c.tag in (q('type'), q('array'))][:1] == ['guint8']
-                                                         and [c.tag for c in a if c.tag in (q('type'), q('array'))][0] == q('type'))
-            for a in self.root.iter(q('array')))
+        self.bad_bytearray = any(a.get('name') == 'GLib.ByteArray' and not self._is_guint8_array(a)
+                                 for a in self.root.iter(q('array')))
         self.entries = [e for e in self.nsel if self.entry_kind(e) is not None and not self.skipped(e)]
         for e in self.entries:
             self.kinds[self.entry_name(e)] = self.entry_kind(e)
+
+    @staticmethod
+    def _is_guint8_array(a):
+        subs = [c for c in a if c.tag in (q('type'), q('array'))]
+        return len(subs) == 1 and subs[0].tag == q('type') and subs[0].get('name') == 'guint8'
 
     def entry_kind(self, e):
         t = e.tag
@@ -1680,7 +1688,7 @@ def run(ctx):
     corpus = load_corpus()
     for i, c in enumerate(corpus):
         cases.append(('corpus:%s' % c.get('name', i), 'K%d' % i, c['gir'].replace('@NS@', 'K%d' % i)))
-    n_gen = ctx.n(150, 3000)
+    n_gen = ctx.n(150, 2000)
     obj_masks = list(range(128))
     ifc_masks = list(range(64))
     rng.shuffle(obj_masks)
@@ -1697,13 +1705,13 @@ def run(ctx):
             cnt.hit('gen:' + lab, v)
     # malformed stream: the union-with-callback-field GIR (hypothesis of C09_sections_union) and one-edit mutants
     cases.append(('malformed:union-callback-field', 'M0', UNION_CALLBACK_GIR % 'M0'))
-    n_mal = ctx.n(40, 600)
+    n_mal = ctx.n(40, 400)
     for k in range(n_mal):
         src = rng.choice(gens)
         ns = 'M%d' % (k + 1)
         cases.append(('malformed:one-edit', ns, one_edit(rng, src.text().replace('"%s"' % src.ns, '"%s"' % ns).replace('lib%s.so' % src.ns.lower(), 'lib%s.so' % ns.lower()))))
 
-    with concurrent.futures.ThreadPoolExecutor(max_workers=8) as ex:
+    with concurrent.futures.ThreadPoolExecutor(max_workers=12) as ex:
         results = list(ex.map(lambda c: tools.process(c[1], c[2]), cases))
     ctx.log('compiled/walked/generated %d GIRs' % len(cases))
 
@@ -1794,8 +1802,11 @@ def run(ctx):
         'distinct_nontrivial': cnt.n_distinct(),
         'rule': 'corpus, then seeded GIR generator: per GIR support entries + 3 classes and 2 interfaces whose empty/non-empty '
                 'section masks cycle through all 2^7 / 2^6 combinations (odd and even interface counts, fields with embedded '
-                'callbacks at random positions), records/unions/enums with methods, functions, constants, callbacks, attributes '
-                '(0-3 per node) on every node kind the compiler attaches them to; optional dependency on a second namespace; '
+                'callbacks at random positions), records (also glib:is-gtype-struct-for)/unions/enums with methods, now and then a '
+                '<glib:boxed>, functions, constants, callbacks, attributes (0-3 per node) on every node kind (entries, fields, '
+                'properties, enum members, class-level constants, parameters, return values of every callable kind); '
+                'introspectable="0" entries and members and shadowed-by/shadows pairs (skipped by the compiler: indices shift), '
+                'readable="0"/"1" fields, deprecated="0", allow-none return values; optional dependency on a second namespace; '
                 'then a malformed stream (union with callback field, one-edit mutants). Every compiled typelib: public-API walk '
                 'vs Lean model dump (line by line), walk vs API derived from the source GIR text, g-ir-generate output vs source '
                 'GIR API. non-trivial = compiled; distinct by GIR text hash.',
